@@ -147,24 +147,23 @@ fn varint(mut v: u64) -> Vec<u8> {
     }
 }
 
-/// one (possibly unknown / malformed) field; wire types 3 and 4 (groups) are not generated
+/// one (possibly unknown / malformed) field
 fn rand_field(r: &mut Rng, depth: u32) -> Vec<u8> {
-    let tag = match r.below(8) {
-        0 => r.range(4, 40),
-        1 => *r.pick(&[0u64, 1 << 28, (1 << 29) - 1, 1 << 29, 1 << 40]),
+    let tag = match r.below(16) {
+        0 | 1 | 2 => r.range(4, 40),
+        3 => *r.pick(&[0u64, 1 << 28, (1 << 29) - 1, 1 << 29, 1 << 40]),
         _ => r.range(1, 3),
     };
-    let wt = match r.below(12) {
-        0 => 0,
-        1 => 1,
-        2 => 5,
-        3 => *r.pick(&[6u64, 7]),
+    let wt = match r.below(24) {
+        0 | 1 => 0,
+        2 => 1,
+        3 => 5,
+        4 => *r.pick(&[6u64, 7, 4]),
+        5 | 6 => 3,
+        7 | 8 if tag == 3 => 0,
         _ => 2,
     };
     let mut out = varint(tag << 3 | wt);
-    if r.chance(1, 12) {
-        // tag 0 / overlong keys etc.: leave as is
-    }
     match wt {
         0 => {
             if r.chance(1, 8) {
@@ -177,8 +176,22 @@ fn rand_field(r: &mut Rng, depth: u32) -> Vec<u8> {
                 out.extend(varint(rand_ttl(r)));
             }
         }
-        1 => out.extend((0..if r.chance(1, 6) { 5 } else { 8 }).map(|i| i as u8)),
-        5 => out.extend((0..if r.chance(1, 6) { 2 } else { 4 }).map(|i| i as u8)),
+        1 => out.extend((0..if r.chance(1, 8) { 5 } else { 8 }).map(|i| i as u8)),
+        5 => out.extend((0..if r.chance(1, 8) { 2 } else { 4 }).map(|i| i as u8)),
+        3 => {
+            // group: inner fields, then the end-group key (sometimes with the wrong tag / missing)
+            if depth > 0 {
+                let n = r.below(3);
+                for _ in 0..n {
+                    out.extend(rand_field(r, depth - 1));
+                }
+            }
+            match r.below(8) {
+                0 => {}
+                1 => out.extend(varint((tag + 1) << 3 | 4)),
+                _ => out.extend(varint(tag << 3 | 4)),
+            }
+        }
         2 => {
             let body: Vec<u8> = if depth > 0 && r.chance(2, 3) {
                 let n = r.below(4);
@@ -186,7 +199,7 @@ fn rand_field(r: &mut Rng, depth: u32) -> Vec<u8> {
             } else {
                 dv::unhex(&rand_bytes(r))
             };
-            let len = match r.below(10) {
+            let len = match r.below(16) {
                 0 => body.len() as u64 + r.range(1, 3), // claims more than there is
                 1 if !body.is_empty() => body.len() as u64 - 1, // claims less: the rest is parsed as further fields
                 _ => body.len() as u64,
@@ -195,6 +208,79 @@ fn rand_field(r: &mut Rng, depth: u32) -> Vec<u8> {
             out.extend(body);
         }
         _ => {}
+    }
+    out
+}
+
+/// a well-formed field of sub-message `variant` (1 Insert, 2 Delete, 3 CompareAndSwap): known tags with the
+/// right wire type, or an unknown tag with any skippable wire type (incl. a group)
+fn good_field(r: &mut Rng, variant: u64, depth: u32) -> Vec<u8> {
+    let ld = |tag: u64, body: Vec<u8>| {
+        let mut o = varint(tag << 3 | 2);
+        o.extend(varint(body.len() as u64));
+        o.extend(body);
+        o
+    };
+    let known: &[u64] = match variant {
+        0 => &[],
+        1 => &[1, 2, 3],
+        2 => &[1],
+        _ => &[1, 2, 3],
+    };
+    if !known.is_empty() && r.chance(3, 4) {
+        let tag = *r.pick(known);
+        if variant == 1 && tag == 3 {
+            let mut o = varint(3 << 3);
+            o.extend(varint(rand_ttl(r)));
+            o
+        } else {
+            ld(tag, dv::unhex(&rand_bytes(r)))
+        }
+    } else {
+        let tag = r.range(4, 300);
+        match r.below(5) {
+            0 => {
+                let mut o = varint(tag << 3);
+                o.extend(varint(r.next()));
+                o
+            }
+            1 => {
+                let mut o = varint(tag << 3 | 1);
+                o.extend([1u8; 8]);
+                o
+            }
+            2 => {
+                let mut o = varint(tag << 3 | 5);
+                o.extend([2u8; 4]);
+                o
+            }
+            3 if depth > 0 => {
+                let mut o = varint(tag << 3 | 3);
+                for _ in 0..r.below(3) {
+                    o.extend(good_field(r, 0, depth - 1));
+                }
+                o.extend(varint(tag << 3 | 4));
+                o
+            }
+            _ => ld(tag, dv::unhex(&rand_bytes(r))),
+        }
+    }
+}
+
+/// a well-formed but unusual `WriteCommand` encoding: repeated / reordered / unknown fields, several
+/// occurrences of the oneof (same variant merges, another variant replaces)
+fn good_stream(r: &mut Rng) -> Vec<u8> {
+    let mut out = vec![];
+    for _ in 0..r.range(1, 3) {
+        if r.chance(1, 5) {
+            out.extend(good_field(r, 0, 2).into_iter()); // unknown at top level (tags ≥ 4 only when variant = 0)
+            continue;
+        }
+        let variant = r.range(1, 3);
+        let body: Vec<u8> = (0..r.below(5)).flat_map(|_| good_field(r, variant, 2)).collect();
+        out.extend(varint(variant << 3 | 2));
+        out.extend(varint(body.len() as u64));
+        out.extend(body);
     }
     out
 }
@@ -248,6 +334,7 @@ fn generate(r: &mut Rng, n: usize, _tier: &str) -> Vec<String> {
                 };
                 out.push(format!("wc|{}", c));
             }
+            3 => out.push(format!("raw|{}", hex(&good_stream(r)))),
             _ => {
                 // malformed / unusual byte streams for the decoder: repeated fields, repeated oneof variants,
                 // unknown tags, wrong wire types, truncation, bad varints
